@@ -29,6 +29,17 @@ if suite_rerun and os.path.exists(suite_rerun):
             verify[m.group(1)]["repository_suite_with_patch_rerun_sequentially"] = m.group(2)
 
 
+# manual re-runs of a demonstration with the author's exact command ("<id> clean=pass patched=fail")
+manual = os.environ.get("SEEDED_MANUAL")
+if manual and os.path.exists(manual):
+    for l in open(manual):
+        m = re.match(r"(C\d\d-\d) clean=(\w+) patched=(\w+)", l.strip())
+        if m and m.group(1) in verify:
+            verify[m.group(1)]["demo_on_unchanged_tree"] = "passes" if m.group(2) == "pass" else "FAILS"
+            verify[m.group(1)]["demo_with_patch"] = "fails" if m.group(3) == "fail" else "PASSES"
+            verify[m.group(1)]["note"] = "the generic confirmation script did not fit this demonstration's layout; it was re-run with the author's exact command"
+
+
 def runs(path):
     out = {}
     if path == "-" or not os.path.exists(path):
